@@ -821,8 +821,17 @@ func (c *Ctx) ruleHashAvailable(rule string, in func(*ssa.Function) bool) int {
 							}
 						}
 					}
-				case *ssa.Lookup, *ssa.Index, *ssa.IndexAddr:
+				case *ssa.Lookup:
 					chosen = true
+				case *ssa.Index:
+					if _, local := ir.RootOf(x.X).(*ssa.Alloc); !local {
+						chosen = true
+					}
+				case *ssa.IndexAddr:
+					// a literal table built in this function: its entries are the constants in the slice
+					if _, local := ir.RootOf(x.X).(*ssa.Alloc); !local {
+						chosen = true
+					}
 				}
 			}
 			if !chosen && !zero {
